@@ -60,6 +60,10 @@ REG["C16"] = {
         ("src/bin/commands/test.rs", ".with_overrides_from(&testcase_config)"),
         ("src/bin/commands/test.rs", "test.config.with_overrides_from(&document_config)"),
     ],
+    # the document defaults are applied to the test case BEFORE its timeout and wait settings are read (the @expr contract covers the
+    # expression, not its position)
+    "callsites_ordered": [("src/executors/stateful_executor.rs", ["testcase.config = testcase.config.with_defaults_from(&context.config.defaults);",
+                                                                   "let (is_global_timeout, timeout) = vec![", "if let Some(ref wait) = testcase.config.wait {"])],
 }
 
 REG["C05"] = {
